@@ -10,6 +10,13 @@ namespace C11
 open Cfg
 
 /-! ### ties between the code's allow-list and the documented one -/
+/-- the two readers of a repository-supplied configuration file (`Configuration.FileSource` for the
+    working tree, `Configuration.RevisionSource` for the index and HEAD; git/config.go, regenerated)
+    mark every source they produce `OnlySafeKeys` — the hypothesis under which the theorems below
+    speak about `.lfsconfig` at all -/
+theorem lfsconfig_readers_restrict :
+    Gen.lfsconfigReaderFlags ≠ [] ∧ ∀ b ∈ Gen.lfsconfigReaderFlags, b = true := by decide
+
 theorem safeKeys_subset_doc : ∀ k ∈ Gen.safeKeys, k ∈ Gen.docLfsconfigKeys := by decide
 /-- the documented list is the plain keys plus exactly the two patterns the model hard-codes -/
 theorem doc_is_safeKeys_plus_patterns :
